@@ -26,7 +26,7 @@ def Allowed (r : R Result) : Prop :=
 
 /-- `parser.parse` on an already lexed text -/
 theorem parseResult_total (cls : Char → CClass) (info : Info) (hinfo : info.WF) (o : Opts)
-    (tznames : List Token) (tzi : TzInfos) (htz : tzi.NoBad) (dflt : DT) (l : List Token) :
+    (tznames : List Token) (tzi : TzInfos) (htz : tzi.NoBad) (hstr : tzi.StringsValid) (dflt : DT) (l : List Token) :
     Allowed (parseResult cls info o tznames tzi dflt l) := by
   unfold parseResult
   obtain ⟨r, hr, hwd⟩ := parseTokens_ok cls info hinfo o l
@@ -48,7 +48,7 @@ theorem parseResult_total (cls : Char → CClass) (info : Info) (hinfo : info.WF
         dsimp only [pure, Except.pure]
         split
         · exact Or.inl ⟨_, rfl⟩
-        · have ht := buildTzaware_kinds tznames tzi htz res
+        · have ht := buildTzaware_kinds tznames tzi htz hstr res
           cases htz' : buildTzaware tznames tzi res with
           | error e =>
             have := ht e htz'
@@ -58,12 +58,31 @@ theorem parseResult_total (cls : Char → CClass) (info : Info) (hinfo : info.WF
 
 /-- **C14 (exception totality)** — for every character classification `cls` (Python's Unicode one in
     particular), every `parserinfo` whose weekday table maps into 0..6, every option combination, every
-    `tzinfos` whose values are tzinfo / TZ string / int / None, every default and EVERY string, the
-    model of `parser.parse` returns a value or raises `ParserError` or `OverflowError`: nothing else. -/
+    `tzinfos` whose values are tzinfo / TZ string / int / None (`NoBad`: anything else is the designed TypeError)
+    **and whose TZ-string values are valid** (`StringsValid`: `tz.tzstr` accepts them — C08's model of the TZ-string
+    parser returns a zone), every default and EVERY string, the model of `parser.parse` returns a value or raises
+    `ParserError` or `OverflowError`: nothing else.
+    The hypothesis "TZ-string values are valid" is NEEDED: `parse_bad_tzstring_escapes` below.  What the theorem
+    covers ends where `parse` (the model) ends: the result descriptor.  `_assign_tzname`'s calls of `tzname()` on the
+    zone object are outside it; for a TZ string they are `PM.strNames` (month 13 passes the constructor and raises at
+    that point), for a tzinfo object or a callable they are the caller's code. -/
 theorem parse_total (cls : Char → CClass) (info : Info) (hinfo : info.WF) (o : Opts)
-    (tznames : List Token) (tzi : TzInfos) (htz : tzi.NoBad) (dflt : DT) (s : List Char) :
+    (tznames : List Token) (tzi : TzInfos) (htz : tzi.NoBad) (hstr : tzi.StringsValid) (dflt : DT) (s : List Char) :
     Allowed (parse cls info o tznames tzi dflt s) :=
-  parseResult_total cls info hinfo o tznames tzi htz dflt (lex cls s)
+  parseResult_total cls info hinfo o tznames tzi htz hstr dflt (lex cls s)
+
+/-- **a malformed TZ string in `tzinfos` lets a plain `ValueError` escape** (D-C14-tzinfos-bad-tzstring): `tz.tzstr('5')`
+    raises "unknown string format" inside `_build_tzaware`, which `parse()` does not wrap — although its docstring promises
+    ParserError "if the provided tzinfo is not in a valid format".  So `StringsValid` cannot be dropped from `parse_total`. -/
+theorem parse_bad_tzstring_escapes :
+    parse asciiCls (Info.default false false 2024 2000) {} [] (.mapping [(some ['X'], .str ['5'])])
+      ⟨2003, 9, 25, 0, 0, 0, 0⟩ "10:00 X".toList = .error .ValueError := by decide +kernel
+
+/-- … and a TZ string the constructor accepts can still raise when `_assign_tzname` asks for `tzname()`: month 13 in a
+    rule is only looked at by `transitions(year)` (`calendar.IllegalMonthError`, a ValueError) -/
+theorem tzstring_query_raises :
+    tzstrCtor "EST5EDT,M13.1.0,M11.1.0".toList = .ok () ∧
+    strNames "EST5EDT,M13.1.0,M11.1.0".toList ⟨2003, 9, 25, 10, 0, 0, 0⟩ = .error .ValueError := by decide +kernel
 
 /-- the stock `parserinfo` (tables dumped from /repo on every run) satisfies the hypothesis on `info` -/
 theorem default_info_wf (df yf : Bool) (year century : Int) : (Info.default df yf year century).WF := by
@@ -73,9 +92,9 @@ theorem default_info_wf (df yf : Bool) (year century : Int) : (Info.default df y
 
 /-- `parse_total` for the stock parserinfo: no hypothesis left on `info` -/
 theorem parse_total_default (cls : Char → CClass) (df yf : Bool) (year century : Int) (o : Opts)
-    (tznames : List Token) (tzi : TzInfos) (htz : tzi.NoBad) (dflt : DT) (s : List Char) :
+    (tznames : List Token) (tzi : TzInfos) (htz : tzi.NoBad) (hstr : tzi.StringsValid) (dflt : DT) (s : List Char) :
     Allowed (parse cls (Info.default df yf year century) o tznames tzi dflt s) :=
-  parse_total cls _ (default_info_wf df yf year century) o tznames tzi htz dflt s
+  parse_total cls _ (default_info_wf df yf year century) o tznames tzi htz hstr dflt s
 
 /-- `_parse` itself never raises (what `parse_total` rests on): the scan's IndexError / ValueError /
     InvalidOperation all become the `(None, None)` return -/
@@ -84,8 +103,9 @@ theorem inner_parse_never_raises (cls : Char → CClass) (info : Info) (hinfo : 
   let ⟨r, h, _⟩ := parseTokens_ok cls info hinfo o l
   ⟨r, h⟩
 
-/-- termination of the lexer: `lex` is defined for every input, one machine step per character
-    (the equations are the definition; nothing is assumed about `cls`) -/
+/-- (definitional/structural — no content beyond "the model is a total Lean function") termination of the lexer:
+    `lex` is defined for every input, one machine step per character (the equations are the definition; nothing
+    is assumed about `cls`).  The quantitative statement is `lex_output_bounded`. -/
 theorem lex_terminates (cls : Char → CClass) :
     lex cls [] = [] ∧
     ∀ (c : Char) (cs : List Char),
@@ -98,8 +118,9 @@ theorem lex_terminates (cls : Char → CClass) :
 theorem lex_output_bounded (cls : Char → CClass) (s : List Char) :
     ((lex cls s).map List.length).sum ≤ s.length := lex_total_length cls s
 
-/-- termination of the scan over tokens: after `len_l` indices the loop has returned
-    (`fuel = 0` is reached by structural recursion whatever the steps did) -/
+/-- (definitional/structural) termination of the scan over tokens: after `len_l` indices the loop has returned
+    (`fuel = 0` is reached by structural recursion whatever the steps did).  That the fuel given is enough — every
+    step moves the index forward and `i + fuel = len_l` — is in the proof of `parse_total`, not here. -/
 theorem parse_terminates (cls : Char → CClass) (info : Info) (fuzzy : Bool) (lenL i skip : Nat) (st : PState) :
     parseLoop cls info fuzzy lenL 0 i skip st = .ok st := rfl
 
@@ -117,8 +138,9 @@ theorem token_list_written_only_by_sign_flip (cls : Char → CClass) (info : Inf
       r.2.l = st.l.set (i + 1) (if sign = ['+'] then ['-'] else ['+']) :=
   parseStep_writes cls info fuzzy lenL i st r h
 
-/-- the outcome is a function of the arguments (purity of the model; the "no state left behind"
-    clause is the correspondence over call sequences) -/
+/-- (definitional/structural: every Lean function is one) the outcome is a function of the arguments; the "no state left
+    behind" clause of the property is NOT this statement but the oracle's statefulness streams (aliasing family,
+    same-text-twice, process-zone switches) and `token_list_written_only_by_sign_flip` -/
 theorem parse_pure (cls : Char → CClass) (info : Info) (o : Opts) (tznames : List Token) (tzi : TzInfos)
     (dflt : DT) (s₁ s₂ : List Char) (h : s₁ = s₂) :
     parse cls info o tznames tzi dflt s₁ = parse cls info o tznames tzi dflt s₂ := by rw [h]
@@ -143,5 +165,12 @@ example : (Info.default false true 2024 2000).WF := default_info_wf _ _ _ _
 example : (TzInfos.mapping [(some ['B'], .int (-10800)), (some ['E'], .obj 0), (none, .noneVal), (some ['C'], .str ['X'])]).NoBad := by
   intro p hp; simp at hp; rcases hp with rfl | rfl | rfl | rfl <;> simp
 example : TzInfos.absent.NoBad := trivial
+example : TzInfos.absent.StringsValid := trivial
+example : (TzInfos.mapping [(some ['B'], .int (-10800)), (some ['C'], .str "EST5EDT".toList)]).StringsValid := by
+  intro p hp s hs
+  simp at hp
+  rcases hp with rfl | rfl
+  · simp at hs
+  · simp at hs; subst hs; decide +kernel
 
 end C14
